@@ -77,6 +77,22 @@ def no_undescribed_access(ctx):
                 if name == 'handle_logging':
                     ctx.ok(f'{fi.qualname}:direct module lookup', n, 'named exception: logging is not an accessible access (C20)', fi)
                     continue
+                if not name.startswith('handle_'):
+                    # a private helper: the export test has to dominate every call of the helper (one level)
+                    callers = [(g, c) for g in ci.methods.values() for c in calls_in(g.node)
+                               if isinstance(c.func, ast.Attribute) and dotted(c.func.value) == 'self' and c.func.attr == name]
+                    okc = bool(callers)
+                    for g, c in callers:
+                        cfgg = CFG(g.node, m, g.module)
+                        tests = [t.id for t in cfgg.nodes if t.kind == 'test' and 'secnode.export' in src(t.ast)]
+                        loops = [a for a in ancestors(c) if isinstance(a, ast.For)]
+                        dom = any(all(cfgg.dominates([t], i) for i in cfgg.node_of(c)) for t in tests)
+                        from_export = any('secnode.export' in src(x.value) for x in body_walk(g.node)
+                                          if isinstance(x, ast.Assign) and any(src(l.iter) == src(x.targets[0]) for l in loops))
+                        okc = okc and (dom or from_export)
+                    ctx.check(okc, f'{fi.qualname}:direct module lookup', n, 'helper: every call site is behind an export test / iterates exported names',
+                              'a helper indexes secnode.modules with a name that is not checked against secnode.export at its call sites', fi)
+                    continue
                 if cfg is None:
                     cfg = CFG(fi.node, m, fi.module)
                 tests = [t.id for t in cfg.nodes if t.kind == 'test' and 'secnode.export' in src(t.ast)]
@@ -116,7 +132,8 @@ def no_undescribed_access(ctx):
               '`if not self.export: accessible.export = False` precedes the wire-name registration',
               'accessibles of an unexported module keep their wire names: they can be read/changed although not described', aa)
     # the wire name is registered after the configuration was applied to the accessible (export may be configured)
-    setp = [i for c in calls_in(aa.node) if call_attr(c) == 'setProperty' for i in cfg.node_of(c)]
+    from sa.lib import deep_calls
+    setp = [i for c, o, site in deep_calls(m, aa, lambda c: call_attr(c) == 'setProperty') for i in cfg.node_of(site)]
     late = [r for r in reg if cfg.reach(cfg.node_of(r)) & set(setp)]
     ctx.check(bool(reg) and not late, f'{aa.qualname}:wire name registered after configuration', reg[0] if reg else aa.node,
               'no setProperty can follow the registration of the wire name',
